@@ -5,6 +5,7 @@ import (
 	"encoding/json"
 	"flag"
 	"fmt"
+	"kverif/internal/an"
 	"os"
 	"path/filepath"
 	"runtime/debug"
@@ -28,10 +29,20 @@ func main() {
 		os.Exit(cmdReplay(os.Args[2:]))
 	case "selftest":
 		os.Exit(cmdSelftest(os.Args[2:]))
+	case "crossdir":
+		os.Exit(cmdCrossDir(os.Args[2:]))
 	case "cross":
 		os.Exit(cmdCross(os.Args[2:]))
 	case "seeds":
 		os.Exit(cmdSeeds(os.Args[2:]))
+	case "names":
+		an.RefNames = nil
+		p, err := load.Load(load.Config{Dir: "/repo"})
+		if err != nil {
+			fmt.Fprintln(os.Stderr, err)
+			os.Exit(2)
+		}
+		os.Stdout.Write(an.DumpNames(p.ModuleFunctions()))
 	case "flows":
 		p, err := load.Load(load.Config{Dir: "/repo"})
 		if err != nil {
